@@ -18,6 +18,7 @@ ENTER = {
     "EnterTempUsedRes": "temp_used_res",
     "EnterGlsOne": "temp_total_gls_one",
     "EnterTempConfig": "temp_config",
+    "EnterTempVar": "temp_var",
 }
 
 
@@ -74,6 +75,8 @@ def execute(rep, path, check_calls=True):
         out.steps += 1
         try:
             if action == "UserSetParam":
+                rep.amp.set_params({rep.pname: pval(args[0])})
+            elif action == "InnerSetParam":
                 rep.amp.set_params({rep.pname: pval(args[0])})
             elif action == "UserSetChains":
                 rep.amp.set_used_chains([k - 1 for k in args[0]])
